@@ -438,7 +438,9 @@ def _compare(root, universe, e, only_family=None):
                              "detail": f"key {key}: expected value id {ev}, read " + (f"value id {other[0]}" if other else "something else")})
     files = {"/".join(str(x) for x in p) for p in e["files"]}
     got = listing(root)
-    if got != files:
+    if got != files and viol:
+        # how the keys are spread over files under the repository path is the implementation's layout (FileOf mirrors today's);
+        # it is reported only together with a key that reads wrongly
         viol.append({"sig": f"{opname}:file-set-differs", "detail": f"extra={sorted(got - files)} missing={sorted(files - got)}"})
     stray = listing(_HOME / ".cherab") if (_HOME / ".cherab").exists() else set()
     if stray:
